@@ -116,6 +116,11 @@ func genThreads(r *rng, op func() string) (int, string) {
 
 func genAtomHist(r *rng, flavour int, self bool) string {
 	k, ts := genThreads(r, func() string { return genAtomOp(r, flavour, self) })
+	if self { // thread 0 starts with an update function that derefs the atom being swapped
+		f := strings.Fields(ts)
+		f[0] = "s0@0"
+		ts = strings.Join(f, " ")
+	}
 	return fmt.Sprintf("hist a k=%d init=%d,%d,1 | %s", k, r.intn(5), r.intn(5), ts)
 }
 
@@ -144,7 +149,7 @@ func genHist(e *concEngine, r *rng, n int, tier string, emit func(string)) {
 		if e.wants("a") && (e.half == "a" || i%2 == 0) {
 			flavour := r.intn(3)
 			self := false
-			if flavour == 1 && selfLeft > 0 && r.chance(1, 3) {
+			if flavour == 1 && selfLeft > 0 {
 				self = true
 				selfLeft--
 			}
